@@ -4,6 +4,7 @@ import (
 	"bufio"
 	"context"
 	"fmt"
+	"github.com/cube2222/octosql/config"
 	"sort"
 	"time"
 
@@ -24,9 +25,11 @@ func Creator(ctx context.Context, name string, options map[string]string) (physi
 
 	fields := make(map[string]octosql.Type)
 	seenCount := make(map[string]int)
+	lastSeenIn := make(map[string]int)
 
 	sc := bufio.NewScanner(f)
-	sc.Buffer(nil, 1024*1024)
+	// The same line size limit as when reading the rows, so that a row is readable wherever in the file it is.
+	sc.Buffer(nil, config.FromContext(ctx).Files.JSON.MaxLineSizeBytes)
 
 	var p fastjson.Parser
 	i := 0
@@ -45,6 +48,11 @@ func Creator(ctx context.Context, name string, options map[string]string) (physi
 		}
 
 		o.Visit(func(key []byte, v *fastjson.Value) {
+			if lastSeenIn[string(key)] == i {
+				// A repeated key. Only its first occurrence is read, and the object is counted once.
+				return
+			}
+			lastSeenIn[string(key)] = i
 			seenCount[string(key)]++
 			if t, ok := fields[string(key)]; ok {
 				fields[string(key)] = octosql.TypeSum(t, getOctoSQLType(v))
